@@ -43,7 +43,11 @@ def props_of(rec):
             out.add(space_prop.get(sp, "C06"))
     if c == "encode_panic" and deletes:
         out.add("C09")
-    if "replace_import" in st and st <= {"replace_import"} and c not in ("name_missing", "name_wrong"):
+    # a history of deletions only: every surviving entity keeps its identity (C09)
+    if c in ("ref", "invalid") and st and all(o.startswith("delete_") for o in st):
+        out.add("C09")
+    # replacements, possibly followed by deleting what was built ("in combination with other edits")
+    if "replace_import" in st and st <= {"replace_import", "delete_f"} and c not in ("name_missing", "name_wrong"):
         out.add("C10")
     if "conv_l2i" in st and st <= {"conv_l2i", "add_fI"} and c not in ("name_missing", "name_wrong"):
         out.add("C11")
